@@ -304,6 +304,9 @@ Inductive action :=
 | ACoordSwap (from to : server)
 | ACoordStore                       (* the provider's Store takes effect (atomic providers; rename of the fixed file provider) *)
 | ACoordStoreTruncate               (* shipped file provider only: os.WriteFile has truncated, nothing written yet *)
+| ACoordStoreFail                   (* the provider's Store returned an error: nothing written, status_resource retries (backoff) *)
+| ACoordStoreGiveUp                 (* NOT in the code as it is: the retry loop ends without a successful Store and the caller carries on
+                                       (UpdateShardMetadata has no error result).  The shipped loop only ends after ~15 min of retries. *)
 | ACoordSendNewTerm (n : server)
 | ACoordRecvNewTermResp (n : server) (o : outcome)
 | ACoordGraceTimeout
@@ -383,6 +386,20 @@ Definition step (v : variant) (w : world) (a : action) : option world :=
       | Some (mkCoord md (PBecomeAcked l fm)) =>
           let md' := elected_md md l in
           Some (set_dur_coord w (DCell md') (Some (mkCoord md' PIdle)))
+      | _ => None
+      end
+  | ACoordStoreFail =>
+      match w_coord w with
+      | Some (mkCoord md PStore1) => Some w
+      | Some (mkCoord md (PBecomeAcked l fm)) => Some w
+      | _ => None
+      end
+  | ACoordStoreGiveUp =>
+      match w_coord w with
+      | Some (mkCoord md PStore1) =>
+          Some (set_coord w (Some (mkCoord md (PFencing (q_start (length (c_ens md ++ c_rem md))) (c_ens md ++ c_rem md)))))
+      | Some (mkCoord md (PBecomeAcked l fm)) =>
+          Some (set_coord w (Some (mkCoord (elected_md md l) PIdle)))
       | _ => None
       end
   | ACoordStoreTruncate =>
@@ -533,6 +550,9 @@ Definition init_world (c0 : cell) (nodes : server -> node) : world :=
 
 (* the provider's write is all-or-nothing: the trace never shows the truncated intermediate state *)
 Definition store_atomic (tr : list action) : Prop := ~ In ACoordStoreTruncate tr.
+(* the controller does not continue before its Store succeeded ("store_succeeds_before_continue") *)
+Definition store_persists (tr : list action) : Prop := ~ In ACoordStoreGiveUp tr.
+Definition store_sound (tr : list action) : Prop := store_atomic tr /\ store_persists tr.
 
 (* every swap replaces a member by a server that is neither a member nor already removed (C19's concern) *)
 Definition wf_action (w : world) (a : action) : Prop :=
